@@ -351,6 +351,9 @@ func (s *State) finishRecovered(t *Thread, fr *Frame) {
 func (s *State) popFrame(t *Thread, rv Value) {
 	fr := t.top()
 	t.frames = t.frames[:len(t.frames)-1]
+	if fr.post != nil {
+		rv = fr.post(s, rv)
+	}
 	caller := t.top()
 	if caller == nil {
 		t.status = TDone
